@@ -395,15 +395,17 @@ theorem PiPtr.setup_never_raises (raw : RawCfg) (cfg : PiPtrCfg) (hcfg : PiPtr.c
     `2N + 2^(i+1)` cells in buckets of `2^(i+1)`; while fewer than `N` postings are stored on it, some bucket has at least
     `2^i` free cells (if all had fewer, the free cells would add up to less than `N + 2^(i+1)`, but `2N + 2^(i+1)` cells
     minus at most `N` stored ones are free).  So over the whole of `_Enc`, for every database and every recorded choice,
-    an IndexError cannot come from the placement — the hypotheses only exclude the two OTHER sources of an IndexError in
-    `_Enc` (the level search and the hash-table update).  This is what the constant `2N + 2^(i+1)` is for.  Partial with
-    respect to "EDBSetup never raises". -/
+    `_Enc` raises no IndexError at all once every list finds its level: not from the placement, and not from the hash-table
+    update either (the mask `H(F_k2(w) ‖ count)` has exactly the bytes of the `level ‖ bucket` field; `d` = the digest
+    length of `hash_h`).  This is what the constant `2N + 2^(i+1)` is for.  Partial with respect to "EDBSetup never raises":
+    the level search is a hypothesis. -/
 theorem DP17.room_for_every_chunk_partial (cfg : DP17Cfg) (lv : Leaves) (k1 k2 : Bytes) (levels : List Int) (db : DB)
     (ls0 : List Level) (t : Tape) (hinit : DP17.initLevels db.total levels [] = .ok ls0)
     (hfa : ∀ p ∈ db, ∃ i : Nat, DP17.findAdjacent cfg levels p.2.length = .ok (i : Int))
-    (hht : ∀ w count i x c HT e, DP17.htInsert cfg lv k1 k2 w count i x c HT = .error e → e ≠ .indexError) :
+    (d : Nat) (hd0 : 0 < d) (hsha : ∀ m, (lv.sha m).length = d) :
     ∀ e, DP17.encDb cfg lv k1 k2 levels db ls0 [] t = .error e → e ≠ .indexError :=
   DP17.encDb_room cfg lv db.total k1 k2 levels db 0 ls0 [] t
-    (DP17.initLevels_linv db.total levels [] ls0 hinit (fun l hl => by cases hl)) (by omega) hfa hht
+    (DP17.initLevels_linv db.total levels [] ls0 hinit (fun l hl => by cases hl)) (by omega) hfa
+    (fun w count i x c HT e => DP17.htInsert_noIndexError cfg lv d hd0 hsha k1 k2 w count i x c HT e)
 
 end SSEPy.C01
